@@ -56,7 +56,7 @@ def cross(nd):
 
 
 def rse(rng, nd, dtype="bool"):
-    k = rng.choice(["cross", "box", "rand", "rand", "even", "big"])
+    k = rng.choice(["cross", "box", "rand", "rand", "even", "big", "wide", "huge"])
     if k == "cross":
         b = cross(nd)
     elif k == "box":
@@ -66,6 +66,16 @@ def rse(rng, nd, dtype="bool"):
     elif k == "big":
         sh = [rng.choice([5, 7]) if i == 0 else rng.choice([1, 3]) for i in range(nd)]
         b = np.array([rng.randint(0, 1) for _ in range(int(np.prod(sh)))]).reshape(sh)
+    elif k == "wide":     # much wider than most images along the LAST axis, members at the far ends
+        sh = [rng.choice([1, 3]) for _ in range(nd)]
+        sh[-1] = rng.choice([9, 15, 21])
+        b = np.zeros(sh, int)
+        b[..., 0] = 1
+        b[..., -1] = rng.randint(0, 1)
+        b[tuple(s // 2 for s in sh)] = rng.randint(0, 1)
+    elif k == "huge":     # larger than the image in every axis
+        sh = [rng.choice([9, 11]) for _ in range(nd)] if nd < 3 else [5] * nd
+        b = (np.array([rng.random() < 0.15 for _ in range(int(np.prod(sh)))]).reshape(sh)).astype(int)
     else:
         sh = [rng.choice([1, 2, 3, 3]) for _ in range(nd)]
         b = np.array([rng.randint(0, 1) for _ in range(int(np.prod(sh)))]).reshape(sh)
@@ -93,7 +103,10 @@ class E:
 
 def _morph(fn):
     def g(rng):
-        a = rarr(rng, ["bool"] + INT_DT)
+        if rng.random() < 0.35:      # the 2-D boolean fast path, often with elements wider than the image
+            a = rarr(rng, ["bool"], nd=2)
+        else:
+            a = rarr(rng, ["bool"] + INT_DT)
         return [a, rse(rng, len(a["shape"]), a["arr"])], {}
     return E(fn, g, gil=True)
 
@@ -387,7 +400,7 @@ def g_soft(rng):
 
 def g_hitmiss(rng):
     a = rarr(rng, ["bool", "uint8", "int32"], nd=2, lo=0, hi=1, lo_dim=1, hi_dim=7)
-    sh = rng.choice([[3, 3], [1, 3], [3, 1], [1, 1], [3, 5]])
+    sh = rng.choice([[3, 3], [1, 3], [3, 1], [1, 1], [3, 5], [2, 2], [2, 3], [4, 1], [4, 3], [2, 1]])
     t = A("uint8", sh, [rng.choice([0, 1, 2]) for _ in range(sh[0] * sh[1])])
     return [a, t], {}
 
